@@ -615,7 +615,8 @@ namespace vh
       return r;
    }
 
-   template< typename G, template< typename... > class Act, template< typename... > class Ctl, apply_mode A, rewind_mode M, typename Eol >
+   // Init = 1: the input is constructed with the non-default initial counters byte 7, line 3, column 5
+   template< typename G, template< typename... > class Act, template< typename... > class Ctl, apply_mode A, rewind_mode M, typename Eol, tracking_mode TM = tracking_mode::eager, int Init = 0 >
    void run_one( const int gid, const int root, const std::string& cfg, const std::string& s )
    {
       lg().clear();
@@ -628,7 +629,8 @@ namespace vh
       std::string res;
       std::string cur;
       {
-         input_with_depth< memory_input< tracking_mode::eager, Eol > > in( buf, buf + s.size(), "s" );
+         using in_t = input_with_depth< memory_input< TM, Eol > >;
+         in_t in = Init ? in_t( buf, buf + s.size(), "s", 7, 3, 5 ) : in_t( buf, buf + s.size(), "s" );
          try {
             const bool r = parse< G, Act, Ctl, A, M >( in );
             res = r ? "T" : "F";
@@ -659,13 +661,14 @@ namespace vh
       std::printf( "RUN %d %d %s %s | %s | %s | %s\n", gid, root, cfg.c_str(), hex( s ).c_str(), res.c_str(), cur.c_str(), lg().c_str() );
    }
 
-   template< typename G, template< typename... > class Act, template< typename... > class Ctl, apply_mode A, rewind_mode M, typename Eol = eol::lf_crlf >
+   template< typename G, template< typename... > class Act, template< typename... > class Ctl, apply_mode A, rewind_mode M, typename Eol = eol::lf_crlf, tracking_mode TM = tracking_mode::eager, int Init = 0 >
    void reg( const int gid )
    {
       const int root = dump< G >();
       dump_custom_acts< G >();
       char cfg[ 96 ];
-      std::snprintf( cfg, sizeof cfg, "%d.%d.%d.%d.%s", fam_id< Act >::value, ctl_id< Ctl >::value, int( A == apply_mode::action ), int( M == rewind_mode::required ), eol_name< Eol >::v );
-      registry().push_back( Entry{ gid, root, cfg, &run_one< G, Act, Ctl, A, M, Eol > } );
+      std::snprintf( cfg, sizeof cfg, "%d.%d.%d.%d.%s%s%s", fam_id< Act >::value, ctl_id< Ctl >::value, int( A == apply_mode::action ), int( M == rewind_mode::required ),
+                     ( TM == tracking_mode::lazy ) ? "lazy-" : "", eol_name< Eol >::v, Init ? "@7-3-5" : "" );
+      registry().push_back( Entry{ gid, root, cfg, &run_one< G, Act, Ctl, A, M, Eol, TM, Init > } );
    }
 }  // namespace vh
